@@ -43,6 +43,25 @@ CHECKS = {
         note="Trusted: TLC, the probe, PyYAML round trip of the input, the real get_splicers used to read generated "
              "files back (itself under test by the reader traces). Known findings are listed in KNOWN_FINDINGS.txt.",
     ),
+    "C11": dict(
+        level="model_checking",
+        design="DESIGN.md section 4 / C11",
+        technique="TLA+ spec EnumValues (C++ evaluator on trees, Shroud's token-level derivation, "
+                  "precedence-climbing evaluator of emitted C/Fortran value text) model-checked with TLC; value "
+                  "text emitted by the real EnumNode + wrap_enum validated against Trace_EnumValues; g++/gcc/"
+                  "gfortran three-way compile ties the TLA+ evaluator to real compilers",
+        text="TLC exhausts every enumeration of <= 3 (thorough 4) members whose values are absent or depth-1 "
+             "expressions over literals and earlier members: the derivation (integer fast path, base+incr for "
+             "implicit members after an expression, C writing explicit values only, Fortran all) keeps the C++ "
+             "value at every step. Conformance: the same enumerations exhaustively for small sizes, and random "
+             "enumerations of up to 6 members and depth 3, plain / enum class / enum struct at library, namespace "
+             "and class scope, are declared through the real ast.EnumNode and emitted by the real wrapc/wrapf "
+             "wrap_enum; TLC evaluates the emitted text under C and Fortran rules and compares with the C++ "
+             "meaning; a batch is compiled with g++, gcc and gfortran and g++'s values are checked against the "
+             "specification's evaluator.",
+        note="Trusted: TLC, the harness tokeniser and name lookup, GCC 12 for the compiled batch. Values are "
+             "limited to 32 bits; the a - -b spelling (non-standard Fortran) is written with parentheses.",
+    ),
 }
 
 ALL = ["C%02d" % i for i in range(1, 19)]
